@@ -169,7 +169,7 @@ def bounded(tier, seed):
     from metapype.model import metapype_io
     b = Bounded("tests/data/eml.xml and hand-built datasets mutated around every threshold (title 4/5 words incl. nbsp and double spaces, abstract "
                 "missing / empty / 19 / 20 words / text only in inline para children, keywords 0/4/5 over one or two sets, each recommended child "
-                "present / absent / empty, parties with and without ORCID / userId / e-mail, incomplete names, data tables with each of size / "
+                "present / absent / empty, parties with and without ORCID / userId / e-mail and with several userIds in either order, incomplete names, data tables with each of size / "
                 "checksum / record count / delimiter (both places) missing, descriptions empty under every listed parent and parentless); "
                 "evaluate.tree compared with an independent declarative oracle; earlier list entries must survive")
     b.rule = "a case is one tree; non-trivial = it contains an evaluated element"
@@ -199,6 +199,13 @@ def bounded(tier, seed):
             u = N("userId", content="77")
             u.add_attribute("directory", "elsewhere")
             cr.add_child(u)
+        elif party in ("orcid-then-other", "other-then-orcid", "orcid-then-empty"):
+            first, second = N("userId", content="0000"), N("userId", content="77" if party != "orcid-then-empty" else None)
+            first.add_attribute("directory", "https://orcid.org")
+            second.add_attribute("directory", "elsewhere")
+            for u in ((second, first) if party == "other-then-orcid" else (first, second)):
+                cr.add_child(u)
+            cr.add_child(N("electronicMailAddress", content="a@b"))
         ds.add_child(cr)
         if abstract is not None:
             ab = N("abstract")
@@ -280,7 +287,7 @@ def bounded(tier, seed):
         cases.append((flag, {flag: False}))
     for r in (None, "", "r"):
         cases.append(("rights", dict(rights=r)))
-    for pt in ("full", "none", "plainid", "nogiven", "emptysur"):
+    for pt in ("full", "none", "plainid", "nogiven", "emptysur", "orcid-then-other", "other-then-orcid", "orcid-then-empty"):
         cases.append(("party", dict(party=pt)))
     for (what, kw) in cases:
         Node.store.clear()
